@@ -301,7 +301,7 @@ def main():
             print('\n'.join(events.get('r', [])))
             print('reference steps:', [x.hex() for x in taproot.merkle_root_steps(c, s)], 'verdict', taproot.verify_commitment(c, p, s))
         return 0
-    n = 128 if a.tier == "quick" else 640
+    n = 128 if a.tier == "quick" else 2500
     jobs = [(bindir, 'valid', i, n) for i in range(16)] + [(bindir, 'leafver', i, 0) for i in range(16)]
     for r in parallel(worker, jobs):
         rep.merge(r)
